@@ -314,4 +314,10 @@ def world_C(kind, scale=None):
         raise ValueError(kind)
     if scale is not None:
         C = C * scale
+    if kind == "full":
+        # C = F^T F with det F > 0 is symmetric positive definite: its determinant and principal minors are positive (used only to take
+        # such factors out of roots: (a / det C)**(1/2) == a**(1/2) det C**(-1/2))
+        ring.declare_positive(C[0, 0] * (C[1, 1] * C[2, 2] - C[1, 2] * C[2, 1]) - C[0, 1] * (C[1, 0] * C[2, 2] - C[1, 2] * C[2, 0]) + C[0, 2] * (C[1, 0] * C[2, 1] - C[1, 1] * C[2, 0]))
+        for i, j in ((0, 1), (0, 2), (1, 2)):
+            ring.declare_positive(C[i, i] * C[j, j] - C[i, j] * C[j, i])
     return C
